@@ -551,6 +551,18 @@ func (s *BlockListSpec) decode(content *hcl.BodyContent, blockLabels []blockLabe
 		}
 	}
 
+	if !cty.CanListVal(elems) {
+		// Types that still contain a dynamic part after unification can
+		// produce elements of different types, which cty.ListVal rejects
+		// by panicking.
+		diags = append(diags, &hcl.Diagnostic{
+			Severity: hcl.DiagError,
+			Summary:  fmt.Sprintf("Unconsistent argument types in %s blocks", s.TypeName),
+			Detail:   "Corresponding attributes in all blocks of this type must be the same.",
+			Subject:  &sourceRanges[0],
+		})
+		return cty.UnknownVal(s.impliedType().WithoutOptionalAttributesDeep()), diags
+	}
 	return cty.ListVal(elems), diags
 }
 
@@ -838,6 +850,18 @@ func (s *BlockSetSpec) decode(content *hcl.BodyContent, blockLabels []blockLabel
 		}
 	}
 
+	if !cty.CanSetVal(elems) {
+		// Types that still contain a dynamic part after unification can
+		// produce elements of different types, which cty.SetVal rejects
+		// by panicking.
+		diags = append(diags, &hcl.Diagnostic{
+			Severity: hcl.DiagError,
+			Summary:  fmt.Sprintf("Unconsistent argument types in %s blocks", s.TypeName),
+			Detail:   "Corresponding attributes in all blocks of this type must be the same.",
+			Subject:  &sourceRanges[0],
+		})
+		return cty.UnknownVal(s.impliedType().WithoutOptionalAttributesDeep()), diags
+	}
 	return cty.SetVal(elems), diags
 }
 
